@@ -90,6 +90,7 @@ func (b *BloomSearchEngine) flushWorker() {
 			select {
 			case <-b.ctx.Done():
 				shuttingDown = true
+				verifPoint("flushWorker.shuttingDown")
 			case flushReq := <-b.flushChan:
 				b.handleFlush(b.flushCtx, flushReq)
 			}
@@ -141,6 +142,7 @@ func (b *BloomSearchEngine) handleFlush(ctx context.Context, flushReq flushReque
 	// creating files after Stop already returned. Report the abandonment to
 	// every waiter instead (best effort — ctx is already canceled, so only
 	// ready channels receive it).
+	verifPoint("handleFlush.begin")
 	if err := ctx.Err(); err != nil {
 		b.logger.Warn("flush abandoned: shutdown deadline expired before the flush could run",
 			"partitions", len(flushReq.partitionBuffers), "waiters", len(flushReq.doneChans))
@@ -277,6 +279,7 @@ func (b *BloomSearchEngine) handleFlush(ctx context.Context, flushReq flushReque
 		sendToChannelsWithContext(ctx, flushReq.doneChans, fmt.Errorf("failed to store file metadata: %w", err))
 		return
 	}
+	verifPoint("handleFlush.beforeAck")
 
 	sendToChannelsWithContext(ctx, flushReq.doneChans, nil)
 }
